@@ -179,6 +179,8 @@ def sampler_scenarios(seed, per_group, faults="none"):
                   "group": [chains, cores, draws]}
             if rnd.random() < 0.4:
                 sc["delays"] = [[rnd.randrange(chains), rnd.choice([100, 400])]]
+            if rnd.random() < 0.5:
+                sc["cb_rate_us"] = rnd.choice([50, 300, 2000, 100000])
             if faults == "none":
                 sc["script"] = user_script(rnd)
             elif faults == "density":
